@@ -77,6 +77,35 @@ def loads_variant(fast_json, json_h, text, how):
         return {"exc": type(ex).__name__}
 
 
+class debug_logging:
+    """as a host application with logging configured at DEBUG: every logger.debug(...) branch is live; records go to
+    a NullHandler"""
+
+    def __enter__(self):
+        import logging
+
+        root = logging.getLogger()
+        self.prev = (root.manager.disable, root.level, list(root.handlers))
+        root.handlers[:] = [logging.NullHandler()]
+        root.setLevel(logging.DEBUG)
+        logging.disable(logging.NOTSET)
+
+    def __exit__(self, *exc):
+        import logging
+
+        root = logging.getLogger()
+        logging.disable(self.prev[0])
+        root.setLevel(self.prev[1])
+        root.handlers[:] = self.prev[2]
+        return False
+
+
+def maybe_debug(i, every):
+    import contextlib
+
+    return debug_logging() if every and i % every == 0 else contextlib.nullcontext()
+
+
 def reuse_check(fast_json, v):
     """the same object encoded again after the caller changed it, the same text decoded twice with the
     first result changed in between: each call must stand on its own"""
@@ -105,6 +134,20 @@ def reuse_check(fast_json, v):
             out["loads_independent"] = (b == b0) and (b is not a)
         t = fast_json.dumps(v)
         out["dumps_repeatable"] = fast_json.dumps(v) == t
+        # a pretty print, failing encodes and failing decodes (the same failure 1..4 times) in between
+        fast_json.dumps(v, indent=2)
+        for k in range(1, 5):
+            for _ in range(k):
+                try:
+                    fast_json.dumps({"x": {1, 2}})
+                except Exception:  # noqa: BLE001
+                    pass
+                try:
+                    fast_json.loads('{"a": [1, 2')
+                except Exception:  # noqa: BLE001
+                    pass
+            if fast_json.dumps(v) != t or fast_json.loads(t) != fast_json.loads(t):
+                out["dumps_repeatable"] = False
     except Exception as ex:  # noqa: BLE001
         out["exc"] = type(ex).__name__
     return out
@@ -190,19 +233,26 @@ def main():
                 imp = False
             ans = {"has_orjson": bool(fast_json.HAS_ORJSON), "orjson_importable": imp}
         elif op == "dumps2":
-            ans = {"out": [dumps_variant(fast_json, json_h.to_py(it["v"]), it.get("how", "plain")) for it in req["items"]]}
+            ans = {"out": []}
+            for i, it in enumerate(req["items"]):
+                with maybe_debug(i, req.get("debug_every")):
+                    ans["out"].append(dumps_variant(fast_json, json_h.to_py(it["v"]), it.get("how", "plain")))
         elif op == "loads2":
-            ans = {"out": [loads_variant(fast_json, json_h, it["t"], it.get("how", "str")) for it in req["items"]]}
+            ans = {"out": []}
+            for i, it in enumerate(req["items"]):
+                with maybe_debug(i, req.get("debug_every")):
+                    ans["out"].append(loads_variant(fast_json, json_h, it["t"], it.get("how", "str")))
         elif op == "reuse":
             ans = {"out": [reuse_check(fast_json, json_h.to_py(t)) for t in req["values"]]}
         elif op == "limits":
             ans = measure_limits(fast_json)
         elif op == "dumps":
             res, tokens = [], {}
-            for t in req["values"]:
+            for i, t in enumerate(req["values"]):
                 v = json_h.to_py(t)
                 try:
-                    res.append({"text": fast_json.dumps(v)})
+                    with maybe_debug(i, req.get("debug_every")):
+                        res.append({"text": fast_json.dumps(v)})
                 except Exception as ex:  # noqa: BLE001
                     res.append({"exc": type(ex).__name__})
                 for x in json_h.floats_of(v):
@@ -215,9 +265,10 @@ def main():
             ans = {"out": res, "tokens": tokens}
         elif op == "loads":
             res = []
-            for s in req["texts"]:
+            for i, s in enumerate(req["texts"]):
                 try:
-                    res.append({"v": json_h.of_py(fast_json.loads(s))})
+                    with maybe_debug(i, req.get("debug_every")):
+                        res.append({"v": json_h.of_py(fast_json.loads(s))})
                 except Exception as ex:  # noqa: BLE001
                     res.append({"exc": type(ex).__name__})
             ans = {"out": res}
